@@ -1,4 +1,5 @@
 import LokyModel.Props.C02
+import LokyModel.Lemmas.ExecNoBreakAll
 /-!
 # C05 — graceful shutdown drains submitted work and leaves nothing behind (executor protocol)
 
@@ -95,5 +96,12 @@ theorem C05_sentinel_count (ps : List Pid) (s : St) (n : Nat) (hfree : ∀ p ∈
       simp only [List.length_cons, mRun, hstep, Option.bind_some]
       exact hr
     · rw [hm]; simp; omega
+
+/-- **A graceful shutdown never flags the pool broken** — explicit, via garbage collection or at
+    interpreter exit, waited or not, at any point of a run, with any number of workers leaving through
+    the handshake or timing out meanwhile (crash-free runs of benign configurations). -/
+theorem C05_never_flagged_broken (cfg : Cfg) (hb : cfg.benign) (s : St) (h : ReachableNC cfg s) :
+    s.broken = none ∧ brokenPath s.mpc = false :=
+  ⟨(nbInv_reachableNC hb h).nb, (nbInv_reachableNC hb h).mp⟩
 
 end LokyModel.Exec
